@@ -54,8 +54,23 @@ pub(crate) mod hooks {
             // file operations that follow are in flight the paused clock cannot advance, so
             // nothing else becomes runnable and the write is atomic with respect to the scheduler:
             // the real-time duration of `tokio::fs` calls cannot reorder simulated events.
-            for _ in 0..48 {
+            // "until it blocks" = 48 consecutive yields during which no simulated event was logged
+            // (a reader working off a long backlog needs thousands of polls before it blocks on the
+            // full channel; a fixed count left it racing with the helper thread of `tokio::fs`).
+            let events = || sim().map_or(0, |shared| lock(&shared).trace.events);
+            let (mut last, mut quiet) = (events(), 0u32);
+            for _ in 0..200_000 {
                 tokio::task::yield_now().await;
+                let now = events();
+                if now == last {
+                    quiet += 1;
+                    if quiet >= 48 {
+                        break;
+                    }
+                } else {
+                    last = now;
+                    quiet = 0;
+                }
             }
         }
         let action = match sim() {
